@@ -1,6 +1,7 @@
 import LettreVerif.Proofs.HeaderReader
 import LettreVerif.Proofs.Headers
 import LettreVerif.Proofs.DkimSig
+import LettreVerif.Proofs.MailboxEnc
 /-!
 # C02 — Header section is well-formed and injection-proof for any supplied text
 
@@ -105,6 +106,33 @@ theorem trailing_spaces_witness :
 theorem space_run_witness :
     (HeaderReader.physicalLines [] ((str "X") ++ [58, 32] ++ encodeValue opts 1 (List.replicate 1000 32 ++ [120]))).any
       (fun l => l.length > 998) = true := by
+  decide +kernel
+
+/-! ## mailbox headers (From, Sender, To, Cc, Bcc, Reply-To) -/
+
+/-- **A mailbox header cannot be broken by any display name.** For every list of mailboxes — names arbitrary Rust strings
+    (CR, LF, CRLF + an injected field, NUL, quotes, backslashes, anything), addresses printable ASCII — the value that
+    `Mailboxes::encode` writes after `Name: ` has no bare CR or LF, every CRLF is followed by a space, every other octet
+    is HTAB or printable ASCII, and it does not end inside a line break: an RFC 5322 reader sees exactly one field.
+    (`Model/MailboxEnc.lean`: `quoted_string::encode` with its four strategies, `write_unbreakable`, compared octet for
+    octet with the code on every generated mailbox and list.) -/
+theorem mailbox_header_wf (nameLen : Nat) (ms : List (Option Bytes × Bytes))
+    (hm : ∀ m ∈ ms, (∀ n, m.1 = some n → HeaderEnc.ContRunsLe3 n) ∧ HeaderEnc.Plain m.2) :
+    HeaderEnc.scan .norm (MailboxEnc.headerValue nameLen ms) = some .norm :=
+  MailboxEnc.mailboxHeader_wf nameLen ms hm
+
+/-- non-vacuity, and the repaired defect (`fix:` 4d26e13) on the model: sixty recipients are folded, no line exceeds 78 -/
+theorem sixty_recipients_folded :
+    let ms : List (Option Bytes × Bytes) := (List.range 60).map fun i => (none, str s!"recipient{i}@example.org")
+    (HeaderReader.physicalLines [] (str "To: " ++ MailboxEnc.headerValue 2 ms ++ [13, 10])).all (fun l => l.length ≤ 78) = true ∧
+    (HeaderReader.physicalLines [] (str "To: " ++ MailboxEnc.headerValue 2 ms ++ [13, 10])).length = 21 := by
+  decide +kernel
+
+/-- finding `mailbox-name-start-not-folded`: the first word of a name after `, ` is written whatever room is left -/
+theorem name_start_not_folded_witness :
+    (HeaderReader.physicalLines [] (str "To: " ++ MailboxEnc.headerValue 2
+      [(none, str "aaaaaaaaaaaaaaaaaaaaaaaaaaaaaaaaaaaaaaaaaaaaaaaaaaaaaaaaaaaaaaaaaaaa@b.c"), (some (str "Longername"), str "x@y.z")] ++ [13, 10])).any
+      (fun l => l.length > 78) = true := by
   decide +kernel
 
 end LV.C02
